@@ -151,6 +151,33 @@ def queues(F, R):
             if op == 'push_back' and q in ('MSGQ', 'DEFQ'):
                 stored_callable(F, f, i, q, R)
 
+@rule('directmark')
+def directmark(F, R):
+    """C06.direct-mark, the case in which process_event()'s queueing helper does not push itself but hands the event to another
+    function of the machine (e.g. the helper of enqueue_event): what that function stores is then what a busy machine keeps of a
+    direct submission, and it must carry the direct mark just the same."""
+    for f in F.funcs:
+        be = backend_of(f)
+        if be not in ('back', 'back11') or not f.blocks or f.n != 'do_pre_msg_queue_helper' or f.cls != 'state_machine': continue
+        if any(q == 'MSGQ' and op == 'push_back' for _i, q, op in queue_ops(f)): continue      # judged by stored_callable
+        found = None
+        todo = [(f, 0)]; seen = set()
+        while todo and found is None:
+            g, dpt = todo.pop()
+            if g.k in seen or dpt > 2: continue
+            seen.add(g.k)
+            for i, n in g.calls():
+                h = F.bykey.get(n.get('fk')) if 'fk' in n else None
+                if h is None or not h.blocks or h.cls != 'state_machine' or backend_of(h) != be: continue
+                if any(q == 'MSGQ' and op == 'push_back' for _i, q, op in queue_ops(h)): found = h; break
+                todo.append((h, dpt + 1))
+        if found is None: continue       # no push reachable: this overload does not queue (no_message_queue variant)
+        R.seen(f); R.anchor('direct-mark:' + be)
+        txt = ' '.join(found.expr(i) for i, n in found.calls() if n.get('n') == 'bind' or n.get('n') == 'process_event_internal')
+        okd = 'EVENT_SOURCE_DIRECT' in txt
+        R.ob('C06.direct-mark', okd, {'func': f.q, 'stores_through': found.n})
+        if not okd: R.find('C06.direct-mark', f, 'queued-direct-call', 'process_event() on a busy machine hands the event to %s, which stores it without the mark of a direct submission: a contained machine that finds no transition for it later does not call no_transition (and its container is not asked either)' % found.n)
+
 def dequeue_protocol(F, E, f, R):
     """copy-out (front) < pop_front < invoke of the copy, on every path, per loop iteration"""
     R.anchor('dequeue-site:' + backend_of(f) + ':' + f.n)
